@@ -19,20 +19,20 @@ open RJson.FP
 theorem rsMain_spec (k nd : Nat) (d0 : Array UInt8) (hnd : nd ≤ 800) (h0 : DigitsOK d0 nd) :
     ∀ (fuel r w n : Nat) (d : Array UInt8), nd - r ≤ fuel → w < r → r ≤ nd → d.size = 800 →
       (∀ i, r ≤ i → i < nd → d[i]! = d0[i]!) → DigitsOK d w → n < 2 ^ k * 10 →
-      val d w * 2 ^ k * 10 + n = val d0 r →
+      val d w * 2 ^ k * 10 + n = val d0 r → (0 < w → 1 ≤ dig d 0) → (w = 0 → 2 ^ k ≤ n) →
       let res := rsMain k (2 ^ k - 1) nd fuel r w n d
       res.1 = w + (nd - r) ∧ res.2.2.size = 800 ∧ DigitsOK res.2.2 res.1 ∧ res.2.1 < 2 ^ k * 10 ∧
-        val res.2.2 res.1 * 2 ^ k * 10 + res.2.1 = val d0 nd := by
+        val res.2.2 res.1 * 2 ^ k * 10 + res.2.1 = val d0 nd ∧ (0 < res.1 → 1 ≤ dig res.2.2 0) ∧ (res.1 = 0 → 2 ^ k ≤ res.2.1) := by
   intro fuel
   induction fuel with
   | zero =>
-    intro r w n d hf hw hr hsz _ hdw hn hinv
+    intro r w n d hf hw hr hsz _ hdw hn hinv hj1 hj2
     have : r = nd := by omega
     subst this
     simp only [rsMain]
-    exact ⟨by omega, hsz, hdw, hn, hinv⟩
+    exact ⟨by omega, hsz, hdw, hn, hinv, hj1, hj2⟩
   | succ fuel ih =>
-    intro r w n d hf hw hr hsz hsame hdw hn hinv
+    intro r w n d hf hw hr hsz hsame hdw hn hinv hj1 hj2
     simp only [rsMain]
     by_cases hlt : r < nd
     · rw [if_pos hlt]
@@ -73,13 +73,21 @@ theorem rsMain_spec (k nd : Nat) (d0 : Array UInt8) (hnd : nd ≤ 800) (h0 : Dig
           have : (val d w * 10 + n / 2 ^ k) * 2 ^ k * 10 + (n % 2 ^ k * 10 + dig d0 r) =
               (val d w * 2 ^ k * 10 + (2 ^ k * (n / 2 ^ k) + n % 2 ^ k)) * 10 + dig d0 r := by ring
           rw [this, hdm, hinv])
+        (by
+          intro _
+          by_cases hw0 : w = 0
+          · subst hw0
+            rw [dig_set_self d 0 _ hwsz hdig, Nat.shiftRight_eq_div_pow]
+            exact Nat.div_pos (hj2 rfl) hp
+          · rw [dig_set_ne d w 0 _ hwsz (by omega)]; exact hj1 (by omega))
+        (by intro h; omega)
       simp only [] at hres
-      obtain ⟨a1, a2, a3, a4, a5⟩ := hres
-      exact ⟨by omega, a2, a3, a4, a5⟩
+      obtain ⟨a1, a2, a3, a4, a5, a6, a7⟩ := hres
+      exact ⟨by omega, a2, a3, a4, a5, a6, a7⟩
     · rw [if_neg hlt]
       have : r = nd := by omega
       subst this
-      exact ⟨by omega, hsz, hdw, hn, hinv⟩
+      exact ⟨by omega, hsz, hdw, hn, hinv, hj1, hj2⟩
 
 theorem rsExtra_sticky (k mask : Nat) : ∀ (fuel w n : Nat) (d : Array UInt8), (rsExtra k mask fuel w n d true).2.2 = true := by
   intro fuel
@@ -143,6 +151,43 @@ theorem rsExtra_wf (k : Nat) : ∀ (fuel w n : Nat) (d : Array UInt8) (tr : Bool
       · rw [if_neg hfit]
         exact ih w _ d _ hsz hw hdw hn'
     · rw [if_neg hn0]; exact ⟨hsz, hw, hdw⟩
+
+/-- the leading digit survives the extra digits (and is written by them when nothing was written before) -/
+theorem rsExtra_nz (k : Nat) : ∀ (fuel w n : Nat) (d : Array UInt8) (tr : Bool), d.size = 800 → n < 2 ^ k * 10 →
+    (0 < w → 1 ≤ dig d 0) → (w = 0 → 2 ^ k ≤ n) →
+    0 < (rsExtra k (2 ^ k - 1) fuel w n d tr).1 → 1 ≤ dig (rsExtra k (2 ^ k - 1) fuel w n d tr).2.1 0 := by
+  intro fuel
+  induction fuel with
+  | zero => intro w n d tr _ _ hj1 _ hpos; simp only [rsExtra] at hpos ⊢; exact hj1 hpos
+  | succ fuel ih =>
+    intro w n d tr hsz hn hj1 hj2
+    have hp : 0 < 2 ^ k := by positivity
+    simp only [rsExtra]
+    by_cases hn0 : n > 0
+    · rw [if_pos hn0]
+      have hmask : n &&& (2 ^ k - 1) = n % 2 ^ k := Nat.and_two_pow_sub_one_eq_mod n k
+      have hdig : n >>> k ≤ 9 := by
+        rw [Nat.shiftRight_eq_div_pow]
+        have : n / 2 ^ k < 10 := by
+          rw [Nat.div_lt_iff_lt_mul hp]; rw [Nat.mul_comm]; exact hn
+        omega
+      have hmod : n % 2 ^ k < 2 ^ k := Nat.mod_lt _ hp
+      have hn' : n % 2 ^ k * 10 < 2 ^ k * 10 := by omega
+      rw [hmask]
+      by_cases hfit : w < d.size
+      · rw [if_pos hfit]
+        apply ih (w + 1) _ _ tr (by rw [size_set!]; exact hsz) hn'
+        · intro _
+          by_cases hw0 : w = 0
+          · subst hw0
+            rw [dig_set_self d 0 _ hfit hdig, Nat.shiftRight_eq_div_pow]
+            exact Nat.div_pos (hj2 rfl) hp
+          · rw [dig_set_ne d w 0 _ hfit (by omega)]; exact hj1 (by omega)
+        · intro h; omega
+      · rw [if_neg hfit]
+        exact ih w _ d _ hsz hn' hj1 (fun h => by omega)
+    · rw [if_neg hn0]
+      intro hpos; exact hj1 hpos
 
 /-- put down extra digits: when no non-zero digit is dropped the digits written (followed by `z'` zeros that did not
     fit) are the exact quotient -/
@@ -392,6 +437,80 @@ theorem rsPickup_spec (a : Decimal) (h : WF a) (k : Nat) (hk1 : 1 ≤ k) (hk : k
       refine ⟨Nat.le_refl _, hge, hlt, ?_, by intro _; first | rfl | trivial⟩
       rw [Nat.min_eq_left hr, Nat.sub_self, Nat.pow_zero, Nat.mul_one, hn]
 
+theorem val_ge_of_lead' (d : Array UInt8) (h1 : 1 ≤ dig d 0) : ∀ n, 1 ≤ n → 10 ^ (n - 1) ≤ val d n := by
+  intro n
+  induction n with
+  | zero => intro h; omega
+  | succ n ih =>
+    intro _
+    by_cases hn : n = 0
+    · subst hn; simp [val]; exact h1
+    · have := ih (by omega)
+      simp only [val, Nat.add_sub_cancel]
+      have hp : 10 ^ n = 10 ^ (n - 1) * 10 := by
+        rw [← Nat.pow_succ]; congr 1; omega
+      rw [hp]; omega
+
+/-- normal form: a non-empty digit string starts with a non-zero digit -/
+def NZ (a : Decimal) : Prop := 0 < a.nd → 1 ≤ dig a.d 0
+
+theorem trim_nz (a : Decimal) (h : NZ a) : NZ a.trim := by
+  intro hpos
+  have hle := (trimLoop_spec a.d a.nd).1
+  have : 0 < a.nd := by
+    have : a.trim.nd = trimLoop a.d a.nd := rfl
+    omega
+  exact h this
+
+theorem trimLoop_pos (d : Array UInt8) (hlead : 1 ≤ dig d 0) : ∀ nd, 1 ≤ nd → 1 ≤ trimLoop d nd := by
+  intro nd
+  induction nd with
+  | zero => intro h; omega
+  | succ n ih =>
+    intro _
+    simp only [trimLoop]
+    by_cases hn : n = 0
+    · subst hn
+      have : (d[0]! == 48) = false := by
+        apply beq_eq_false_iff_ne.mpr
+        intro h48
+        unfold dig at hlead
+        rw [h48] at hlead
+        simp at hlead
+      rw [if_neg (by simp [this])]
+    · split
+      · exact ih (by omega)
+      · omega
+
+theorem trim_pos (a : Decimal) (hnz : NZ a) (hnd : 1 ≤ a.nd) : 1 ≤ a.trim.nd :=
+  trimLoop_pos a.d (hnz hnd) a.nd hnd
+
+theorem rsExtra_mono (k mask : Nat) : ∀ (fuel w n : Nat) (d : Array UInt8) (tr : Bool), w ≤ (rsExtra k mask fuel w n d tr).1 := by
+  intro fuel
+  induction fuel with
+  | zero => intro w n d tr; simp [rsExtra]
+  | succ fuel ih =>
+    intro w n d tr
+    simp only [rsExtra]
+    split
+    · split
+      · exact Nat.le_trans (by omega) (ih _ _ _ _)
+      · exact ih _ _ _ _
+    · exact Nat.le_refl _
+
+theorem rsExtra_pos (k mask : Nat) (fuel w n : Nat) (d : Array UInt8) (tr : Bool) (hsz : d.size = 800)
+    (h : 0 < w ∨ (0 < n ∧ 1 ≤ fuel)) : 0 < (rsExtra k mask fuel w n d tr).1 := by
+  rcases h with h | ⟨hn, hf⟩
+  · exact Nat.lt_of_lt_of_le h (rsExtra_mono k mask fuel w n d tr)
+  · by_cases hw : 0 < w
+    · exact Nat.lt_of_lt_of_le hw (rsExtra_mono k mask fuel w n d tr)
+    · have hw0 : w = 0 := by omega
+      subst hw0
+      obtain ⟨fuel, rfl⟩ : ∃ f, fuel = f + 1 := ⟨fuel - 1, by omega⟩
+      simp only [rsExtra]
+      rw [if_pos hn, if_pos (by omega)]
+      exact Nat.lt_of_lt_of_le (by omega) (rsExtra_mono k mask fuel 1 _ _ tr)
+
 /-! ## `rightShift` -/
 
 theorem aval_zero_of_val (a : Decimal) (h : val a.d a.nd = 0) : aval a = 0 := by simp [aval, h]
@@ -399,7 +518,7 @@ theorem aval_zero_of_val (a : Decimal) (h : val a.d a.nd = 0) : aval a = 0 := by
 /-- **`rightShift(a, k)`**: well-formed again; when the `trunc` flag is off afterwards it was off before and the
     value is exactly `a / 2^k` -/
 theorem rightShift_spec (a : Decimal) (h : WF a) (k : Nat) (hk1 : 1 ≤ k) (hk : k ≤ 60) :
-    WF (rightShift a k) ∧ (rightShift a k).neg = a.neg ∧
+    WF (rightShift a k) ∧ NZ (rightShift a k) ∧ (NZ a → 1 ≤ a.nd → 1 ≤ (rightShift a k).nd) ∧ (rightShift a k).neg = a.neg ∧
       ((rightShift a k).trunc = false → a.trunc = false ∧ aval (rightShift a k) = aval a / 2 ^ k) := by
   have hp : (0 : ℕ) < 2 ^ k := by positivity
   simp only [rightShift]
@@ -408,7 +527,12 @@ theorem rightShift_spec (a : Decimal) (h : WF a) (k : Nat) (hk1 : 1 ≤ k) (hk :
   | none =>
     rw [hrp] at hpick
     simp only [] at hpick ⊢
-    refine ⟨⟨h.size, by simp, fun i hi => absurd hi (by simp)⟩, by first | rfl | trivial, fun htr => ⟨htr, ?_⟩⟩
+    refine ⟨⟨h.size, by simp, fun i hi => absurd hi (by simp)⟩, fun hh => absurd hh (by simp), ?_, by first | rfl | trivial, fun htr => ⟨htr, ?_⟩⟩
+    · intro hnz hnd1
+      exfalso
+      have := val_ge_of_lead' a.d (hnz hnd1) a.nd hnd1
+      have hp10 : 0 < 10 ^ (a.nd - 1) := by positivity
+      omega
     rw [aval_zero_of_val a hpick]
     simp [aval, val]
   | some pr =>
@@ -425,25 +549,27 @@ theorem rightShift_spec (a : Decimal) (h : WF a) (k : Nat) (hk1 : 1 ≤ k) (hk :
       omega
     -- the main loop
     have hmain : ∃ w n1 d1, rsMain k (2 ^ k - 1) a.nd (a.nd + 1) r 0 n a.d = (w, n1, d1) ∧ d1.size = 800 ∧ w ≤ 800 ∧ DigitsOK d1 w ∧
-        n1 < 2 ^ k * 10 ∧ ∃ j, val d1 w * 10 ^ 0 * 2 ^ k * 10 + n1 = val a.d a.nd * 10 ^ j ∧ w + 0 + r = a.nd + j := by
+        n1 < 2 ^ k * 10 ∧ (0 < w → 1 ≤ dig d1 0) ∧ (w = 0 → 2 ^ k ≤ n1) ∧
+        ∃ j, val d1 w * 10 ^ 0 * 2 ^ k * 10 + n1 = val a.d a.nd * 10 ^ j ∧ w + 0 + r = a.nd + j := by
       by_cases hrn : r ≤ a.nd
       · have hm := rsMain_spec k a.nd a.d h.nd h.digits (a.nd + 1) r 0 n a.d (by omega) (by omega) hrn h.size
           (fun _ _ _ => rfl) (fun i hi => absurd hi (by omega)) hn2
           (by rw [Nat.min_eq_left hrn, Nat.sub_self] at hnv; simp [val]; omega)
+          (fun hh => absurd hh (by omega)) (fun _ => hn1)
         simp only [] at hm
-        obtain ⟨m1, m2, m3, m4, m5⟩ := hm
+        obtain ⟨m1, m2, m3, m4, m5, m6, m7⟩ := hm
         refine ⟨(rsMain k (2 ^ k - 1) a.nd (a.nd + 1) r 0 n a.d).1, (rsMain k (2 ^ k - 1) a.nd (a.nd + 1) r 0 n a.d).2.1,
-          (rsMain k (2 ^ k - 1) a.nd (a.nd + 1) r 0 n a.d).2.2, rfl, m2, by rw [m1]; have := h.nd; omega, m3, m4, 0, ?_, by rw [m1]; omega⟩
+          (rsMain k (2 ^ k - 1) a.nd (a.nd + 1) r 0 n a.d).2.2, rfl, m2, by rw [m1]; have := h.nd; omega, m3, m4, m6, m7, 0, ?_, by rw [m1]; omega⟩
         simp only [Nat.pow_zero, Nat.mul_one]; exact m5
       · -- fewer digits than the shift needs: nothing is written by the main loop
         have hgt : a.nd < r := by omega
         have hm : rsMain k (2 ^ k - 1) a.nd (a.nd + 1) r 0 n a.d = (0, n, a.d) := by
           simp only [rsMain]
           rw [if_neg (by omega)]
-        refine ⟨0, n, a.d, hm, h.size, by omega, fun i hi => absurd hi (by omega), hn2, r - a.nd, ?_, by omega⟩
+        refine ⟨0, n, a.d, hm, h.size, by omega, fun i hi => absurd hi (by omega), hn2, fun hh => absurd hh (by omega), fun _ => hn1, r - a.nd, ?_, by omega⟩
         rw [Nat.min_eq_right (by omega)] at hnv
         simp [val]; exact hnv
-    obtain ⟨w, n1, d1, hmeq, hsz1, hw1, hd1, hn1', j0, hinv1, hpos1⟩ := hmain
+    obtain ⟨w, n1, d1, hmeq, hsz1, hw1, hd1, hn1', hj1, hj2, j0, hinv1, hpos1⟩ := hmain
     rw [hmeq]
     simp only []
     -- the extra digits
@@ -453,13 +579,23 @@ theorem rightShift_spec (a : Decimal) (h : WF a) (k : Nat) (hk1 : 1 ≤ k) (hk :
         · exact .inl hz
         · exact .inr ⟨by simp, by omega, by omega⟩)
     simp only [] at hext
-    generalize hre : rsExtra k (2 ^ k - 1) 2000 w n1 d1 a.trunc = re at hext
+    have hnzx := rsExtra_nz k 2000 w n1 d1 a.trunc hsz1 hn1' hj1 hj2
+    generalize hre : rsExtra k (2 ^ k - 1) 2000 w n1 d1 a.trunc = re at hext hnzx
     obtain ⟨w2, d2, tr2⟩ := re
     simp only [] at hext ⊢
     obtain ⟨e1, e2, e3, e4⟩ := hext
     have hwf2 : WF { a with d := d2, nd := w2, dp := a.dp - ((r : ℤ) - 1), trunc := tr2 } := ⟨e1, e2, e3⟩
     obtain ⟨t1, t2, t3, t4⟩ := trim_spec _ hwf2
-    refine ⟨t1, t3, fun htr => ?_⟩
+    have hnz2 : NZ { a with d := d2, nd := w2, dp := a.dp - ((r : ℤ) - 1), trunc := tr2 } := fun hh => hnzx hh
+    have hw2pos : 0 < w2 := by
+      have := rsExtra_pos k (2 ^ k - 1) 2000 w n1 d1 a.trunc hsz1 (by
+        by_cases hw0 : 0 < w
+        · exact .inl hw0
+        · refine .inr ⟨?_, by norm_num⟩
+          have := hj2 (by omega)
+          omega)
+      rw [hre] at this; exact this
+    refine ⟨t1, trim_nz _ hnz2, fun _ _ => trim_pos _ hnz2 hw2pos, t3, fun htr => ?_⟩
     rw [t4] at htr
     obtain ⟨f1, z', j', f2, f3⟩ := e4 htr
     refine ⟨f1, ?_⟩
